@@ -43,9 +43,9 @@ theorem gqid_qid (q : Qid) (r : Bytes) : gqid (Spec.qid q ++ r) = .ok (q, r) := 
 theorem stat_length_ge (dotu : Bool) (d : Stat) : 49 ≤ (Spec.stat dotu d).length := by
   cases dotu <;> simp [Spec.stat, Spec.statBody, Spec.str, Spec.qid] <;> omega
 
-theorem gstat_stat (dotu : Bool) (d : Stat) (r : Bytes) (h : Spec.statOk dotu d) :
+theorem gstat_stat (dotu : Bool) (d : Stat) (r : Bytes) (h : Spec.statStrOk dotu d) :
     gstat dotu (Spec.stat dotu d ++ r) = .ok (normStat dotu d, r) := by
-  obtain ⟨hn, hu, hg, hm, he, _⟩ := h
+  obtain ⟨hn, hu, hg, hm, he⟩ := h
   have hl : ¬ (Spec.stat dotu d ++ r).length < 41 := by
     have := stat_length_ge dotu d
     simp only [List.length_append]; omega
